@@ -21,6 +21,7 @@ static int mon_step(struct st *s, int o, int n) {
     if ((unsigned)n == (unsigned)o + 1u) { s->ctr = n; s->k++; return 0; }
     return 1;
 }
+void vx_fatal(void) { __CPROVER_assume(0); }
 void vx_yield(void) {
     struct st b; b.ctr = nondet_int(); b.k = nondet_ulong();
     __CPROVER_assume(rely(S.s, b));
